@@ -1,2 +1,11 @@
 import GoImap.Props.C20
 #print axioms GoImap.C20.matchList_iff
+#print axioms GoImap.C20.matchNFA_iff
+#print axioms GoImap.C20.matchList_eq_matchNFA
+#print axioms GoImap.C20.MatchList_iff_delim
+#print axioms GoImap.C20.MatchList_iff_nodelim
+#print axioms GoImap.C20.MatchList_iff
+#print axioms GoImap.C20.MatchList_resolved
+#print axioms GoImap.C20.star_matches_all
+#print axioms GoImap.C20.pct_no_delim
+#print axioms GoImap.C20.literal_only
